@@ -1,10 +1,10 @@
 (* Extraction of the HTTP-layer model (C16, C18) for the correspondence driver.  ExtrOcamlBasic only; the
    regenerated route table is compiled (inside Coq) to byte strings and extracted with the model, so the
    driver dispatches on the same table the proof obligations were checked on. *)
-From Burrow Require Import ConfigRead.
+From Burrow Require Import Http.
 From BurrowGen Require Import RouteTable.
 Require Import ZArith Arith ExtrOcamlBasic.
 Definition compiled_table : list brow := Eval vm_compute in compile_table RouteTable.table.
 Extraction "model.ml"
   Z.add Nat.add
-  handle handle_v0 dispatch world_backend compiled_table.
+  handle handle_v0 dispatch serve world_backend compiled_table.
